@@ -146,7 +146,7 @@ fn sx_to_msg(m: &Sx) -> Option<PushMessage> {
 /// and advanced by creating and dropping nodes, never lowered.  `cur` is the id the next Node::new gets.
 /// Single-threaded use only.
 pub struct NodeCounter { pub cur: usize }
-pub const MAX_BURN: usize = 50_000_000;
+pub const MAX_BURN: usize = 400_000_000;
 impl NodeCounter {
     pub fn read() -> Self { NodeCounter { cur: Node::new(0).get_id() + 1 } }
     /// false: the counter is already beyond `target` (or absurdly far below it)
